@@ -1,187 +1,175 @@
-(* EBLIF engine, connectivity clause of C18: .conn.  merge_wires moves the pins of wire (a, i) and
-   of wire (b, j) to the only wire of a new cable a_i_b_j and removes the two wires (the wires after
-   them move down by one).  For two different cables no earlier .conn has consumed or created:
-   pins share a wire afterwards exactly when they did before or sit on the two merged net bits. *)
+(* EBLIF engine, connectivity clause of C18: .conn.  merge_wires moves the pins of the wire that stands
+   for operand b to the wire that stands for operand a and enters (emptied wire, surviving wire) in the
+   table of merged wires; both wires stay where they are.  Whatever the statements read before - other
+   .conn naming the same nets, statements using them - the reader's invariant [NI] is kept: the nets the
+   .conn statements join, in any order and through any chain, are the nets whose pins share a wire. *)
 From Coq Require Import List Arith NArith Bool Lia Permutation.
 From SV Require Import Base.Base Fmt.Blif Fmt.BlifRead Fmt.BlifSpec
   Proofs.BlifBase Proofs.BlifWF Proofs.BlifExec Proofs.BlifNetsBase Proofs.BlifNetsView Proofs.BlifNetsRel.
 Import ListNotations.
 
-Definition shift (i k : nat) : nat := if Nat.ltb k i then k else S k.
-
-Lemma nth_remove_nth {A} i (l : list A) k d : nth k (remove_nth i l) d = nth (shift i k) l d.
+(* ---------- wires addressed by (cable, position) under set_wire ---------- *)
+Lemma nth_upd_nth_same {A} k (f : A -> A) l d : k < length l -> nth k (upd_nth k f l) d = f (nth k l d).
 Proof.
-  unfold shift. revert l k. induction i as [|i IH]; intros [|x l] k; cbn [remove_nth].
-  - destruct k; reflexivity.
-  - reflexivity.
-  - destruct (Nat.ltb k (S i)); destruct k; reflexivity.
-  - destruct k as [|k]; [reflexivity|]. cbn [nth]. rewrite IH.
-    change (Nat.ltb (S k) (S i)) with (Nat.ltb k i). destruct (Nat.ltb k i); reflexivity.
+  revert k. induction l as [|x l IH]; intros [|k] H; cbn in *; try lia; [reflexivity|]. apply IH. lia.
 Qed.
 
-Lemma wire_at_upd_rm c' i X c k :
-  wire_at c k (upd_cable c' (remove_nth i) X) = if str_eqb c c' then wire_at c (shift i k) X else wire_at c k X.
+Lemma nth_upd_nth_nil {A} k (l : list (list A)) : nth k (upd_nth k (fun _ => []) l) [] = [].
+Proof. revert k. induction l as [|x l IH]; intros [|k]; cbn; try reflexivity. apply IH. Qed.
+
+Lemma wire_at_set_wire_nil c k cs : wire_at c k (set_wire c k (fun _ => []) cs) = [].
 Proof.
-  rewrite wire_at_upd. unfold wire_at. destruct (find_cable c X); [|destruct (str_eqb c c'); reflexivity].
-  destruct (str_eqb c c'); [apply nth_remove_nth|reflexivity].
+  unfold set_wire. rewrite wire_at_upd. destruct (find_cable c cs); [|reflexivity].
+  rewrite str_eqb_refl. apply nth_upd_nth_nil.
 Qed.
 
-Lemma sw_iff cs a b : NoDup (map c_name cs) ->
-  (same_wire_c cs a b <-> exists c k, In a (wire_at c k cs) /\ In b (wire_at c k cs)).
+Lemma wire_at_set_wire_same c k f cs : has_wire c k cs -> wire_at c k (set_wire c k f cs) = f (wire_at c k cs).
 Proof.
-  intro Hnd. split.
-  - intros [c [w [Hc [Hw [Ha Hb]]]]]. destruct (wire_is_wire_at cs c w Hnd Hc Hw) as [k Hk].
-    exists (c_name c), k. rewrite Hk. auto.
-  - intros [c [k [Ha Hb]]]. destruct (wire_at_is_wire _ _ _ _ Ha) as [x [Hx Hw]]. exists x, (wire_at c k cs). auto.
+  intros [x [Hx Hk]]. unfold set_wire. rewrite wire_at_upd. unfold wire_at. rewrite Hx, str_eqb_refl.
+  apply nth_upd_nth_same. exact Hk.
+Qed.
+
+Lemma nb_neq_cases (x y : netbit) : x <> y -> fst x <> fst y \/ snd x <> snd y.
+Proof.
+  destruct x as [c k], y as [c' k']. cbn. intro H. destruct (list_eq_dec N.eq_dec c c') as [->|Hc]; [|left; exact Hc].
+  right. intro E. subst. apply H. reflexivity.
+Qed.
+
+(* the cables after .conn: [x], [y] the wires that stand for the operands *)
+Lemma do_conn_wires al an ai bn bi m m' :
+  do_conn al an ai bn bi m = Ok m' ->
+  let x := merged_into al (an, ai) in let y := merged_into al (bn, bi) in
+  x <> y -> has_wire (fst x) (snd x) (ensure_wire bn bi (ensure_wire an ai (m_cables m))) ->
+  forall c k, wire_at c k (m_cables m') =
+    if nb_eqb (c, k) y then []
+    else if nb_eqb (c, k) x then wire_at (fst x) (snd x) (m_cables m) ++ wire_at (fst y) (snd y) (m_cables m)
+    else wire_at c k (m_cables m).
+Proof.
+  intros H x y Hxy Hx c k. unfold do_conn in H. fold x y in H.
+  rewrite (proj2 (nb_eqb_false x y) Hxy) in H. inversion H; subst m'. clear H. cbn [set_cables m_cables].
+  set (cs := m_cables m) in *. set (cs2 := ensure_wire bn bi (ensure_wire an ai cs)) in *.
+  assert (W2 : forall c0 k0, wire_at c0 k0 cs2 = wire_at c0 k0 cs).
+  { intros c0 k0. unfold cs2. rewrite !wire_at_ensure. reflexivity. }
+  destruct (nb_eqb (c, k) y) eqn:E1.
+  - apply nb_eqb_true in E1. subst y. rewrite <- E1. cbn [fst snd]. apply wire_at_set_wire_nil.
+  - apply nb_eqb_false in E1. rewrite wire_at_set_wire_other by (apply (nb_neq_cases (c, k) y E1)).
+    destruct (nb_eqb (c, k) x) eqn:E2.
+    + apply nb_eqb_true in E2. rewrite <- E2 in *. cbn [fst snd] in *.
+      rewrite (wire_at_set_wire_same _ _ _ _ Hx), !W2. reflexivity.
+    + apply nb_eqb_false in E2. rewrite wire_at_set_wire_other by (apply (nb_neq_cases (c, k) x E2)). apply W2.
 Qed.
 
 Lemma same_bit_mono cs xy x y : same_bit cs x y -> same_bit (cs ++ [xy]) x y.
-Proof. intros [H|[H|H]]; [left; exact H|right; left|right; right]; apply in_app_iff; auto. Qed.
-
-Lemma touched_app cs xy :
-  touched (cs ++ [xy]) = touched cs ++ [fst (fst xy); fst (snd xy);
-     merge_name (fst (fst xy)) (snd (fst xy)) (fst (snd xy)) (snd (snd xy))].
-Proof. unfold touched. rewrite flat_map_app. reflexivity. Qed.
-
-Lemma find_cable_wire_at c k cs pr : In pr (wire_at c k cs) -> exists x, find_cable c cs = Some x.
-Proof. unfold wire_at. destruct (find_cable c cs); [eauto|intros []]. Qed.
-
-Lemma B_do_conn an ai bn bi m m' att conns :
-  do_conn an ai bn bi m = Ok m' ->
-  NoDup (map c_name (m_cables m)) ->
-  an <> bn -> ~ In an (touched conns) -> ~ In bn (touched conns) ->
-  B1 (m_cables m) att (touched conns) -> B2 (m_cables m) att conns ->
-  B1 (m_cables m') att (touched (conns ++ [((an, ai), (bn, bi))])) /\
-  B2 (m_cables m') att (conns ++ [((an, ai), (bn, bi))]).
 Proof.
-  intros H Hnd Hab Hta Htb H1 H2.
-  destruct (do_conn_spec _ _ _ _ _ _ H Hnd) as [_ [_ [_ [_ [Hnd' _]]]]].
-  unfold do_conn in H. set (cs := m_cables m) in *.
-  set (cs2 := ensure_wire bn bi (ensure_wire an ai cs)) in *.
-  set (nmg := merge_name an ai bn bi) in *.
-  destruct (find_cable nmg cs2) eqn:Efresh; [discriminate|].
-  destruct (str_eqb an bn && Nat.eqb ai bi); [discriminate|].
-  assert (Eab : str_eqb an bn = false) by (apply str_eqb_false; exact Hab). rewrite Eab in H.
-  inversion H; subst m'. clear H. cbn [set_cables m_cables] in *.
-  assert (W2 : forall c k, wire_at c k cs2 = wire_at c k cs).
-  { intros c k. unfold cs2. rewrite !wire_at_ensure. reflexivity. }
-  assert (Hkeep : forall c x, find_cable c cs = Some x -> exists y, find_cable c cs2 = Some y).
-  { intros c x Hx. destruct (ensure_wire_keeps an ai cs c x Hx) as [y Hy]. exact (ensure_wire_keeps bn bi _ c y Hy). }
-  assert (Hna : nmg <> an).
-  { intro E. destruct (ensure_wire_finds an ai cs) as [x Hx]. destruct (ensure_wire_keeps bn bi _ an x Hx) as [y Hy].
-    fold cs2 in Hy. rewrite <- E in Hy. congruence. }
-  assert (Hnb : nmg <> bn).
-  { intro E. destruct (ensure_wire_finds bn bi (ensure_wire an ai cs)) as [x Hx]. fold cs2 in Hx. rewrite <- E in Hx. congruence. }
-  set (wA := wire_at an ai cs). set (wB := wire_at bn bi cs).
-  assert (W4 : forall c k,
-    wire_at c k (upd_cable bn (remove_nth bi) (upd_cable an (remove_nth ai)
-                  (cs2 ++ [mkCable nmg [wire_at an ai cs2 ++ wire_at bn bi cs2]]))) =
-    if str_eqb c bn then wire_at bn (shift bi k) cs
-    else if str_eqb c an then wire_at an (shift ai k) cs
-    else if str_eqb c nmg then nth k [wA ++ wB] [] else wire_at c k cs).
-  { intros c k. rewrite !wire_at_upd_rm. rewrite !(wire_at_app_new _ _ _ _ _ Efresh). rewrite !W2.
-    destruct (str_eqb c bn) eqn:E1.
-    - apply str_eqb_spec in E1. subst c. rewrite (proj2 (str_eqb_false bn an)) by congruence.
-      rewrite (proj2 (str_eqb_false bn nmg)) by congruence. reflexivity.
-    - destruct (str_eqb c an) eqn:E2.
-      + apply str_eqb_spec in E2. subst c. rewrite (proj2 (str_eqb_false an nmg)) by congruence. reflexivity.
-      + reflexivity. }
-  rewrite touched_app. cbn [fst snd]. fold nmg. split.
-  - (* cables no .conn has touched are as before *)
-    intros c Hc pr k. rewrite W4.
-    assert (c <> bn /\ c <> an /\ c <> nmg /\ ~ In c (touched conns)) as [N1 [N2 [N3 N4]]].
-    { repeat split; intro E; apply Hc; apply in_app_iff; cbn; auto. }
-    rewrite (proj2 (str_eqb_false c bn)), (proj2 (str_eqb_false c an)), (proj2 (str_eqb_false c nmg)) by assumption.
-    apply H1. exact N4.
-  - intros a b. rewrite (sw_iff _ a b Hnd'). split.
-    + intros [c [k [Ha Hb]]]. rewrite W4 in Ha, Hb.
-      assert (Hold : forall c0 k0, In a (wire_at c0 k0 cs) -> In b (wire_at c0 k0 cs) ->
-                exists x y, In (a, x) att /\ In (b, y) att /\ same_bit (conns ++ [(an, ai, (bn, bi))]) x y).
-      { intros c0 k0 A B. assert (S : same_wire_c cs a b) by (apply sw_iff; [exact Hnd|eauto]).
-        apply H2 in S as [x [y [X1 [X2 X3]]]]. exists x, y. repeat split; auto. apply same_bit_mono. exact X3. }
-      destruct (str_eqb c bn); [eapply Hold; eauto|]. destruct (str_eqb c an); [eapply Hold; eauto|].
-      destruct (str_eqb c nmg); [|eapply Hold; eauto].
-      destruct k as [|k]; [|destruct k; destruct Ha]. cbn [nth] in Ha, Hb.
-      assert (Hx : forall p, In p (wA ++ wB) -> In (p, (an, ai)) att \/ In (p, (bn, bi)) att).
-      { intros p Hp. apply in_app_iff in Hp as [Hp|Hp]; [left; apply (H1 an Hta)|right; apply (H1 bn Htb)]; exact Hp. }
-      destruct (Hx a Ha) as [A|A], (Hx b Hb) as [B|B]; eexists; eexists; (split; [exact A|]); (split; [exact B|]).
-      * left. reflexivity.
-      * right. left. apply in_app_iff. right. left. reflexivity.
-      * right. right. apply in_app_iff. right. left. reflexivity.
-      * left. reflexivity.
-    + intros [x [y [A [B S]]]].
-      assert (Hmerged : In a (wA ++ wB) -> In b (wA ++ wB) ->
-                exists c k, In a (wire_at c k (upd_cable bn (remove_nth bi) (upd_cable an (remove_nth ai)
-                  (cs2 ++ [mkCable nmg [wire_at an ai cs2 ++ wire_at bn bi cs2]])))) /\
-                            In b (wire_at c k (upd_cable bn (remove_nth bi) (upd_cable an (remove_nth ai)
-                  (cs2 ++ [mkCable nmg [wire_at an ai cs2 ++ wire_at bn bi cs2]]))))).
-      { intros Ha Hb. exists nmg, 0. rewrite W4.
-        rewrite (proj2 (str_eqb_false nmg bn)), (proj2 (str_eqb_false nmg an)), str_eqb_refl by assumption.
-        cbn [nth]. auto. }
-      assert (Hnew : forall p q, In (p, (an, ai)) att -> In (q, (bn, bi)) att -> In p (wA ++ wB) /\ In q (wA ++ wB)).
-      { intros p q P Q. split; apply in_app_iff; [left; apply (H1 an Hta)|right; apply (H1 bn Htb)]; assumption. }
-      assert (Sold : same_bit conns x y \/ (x = (an, ai) /\ y = (bn, bi)) \/ (y = (an, ai) /\ x = (bn, bi))).
-      { destruct S as [S|[S|S]]; [left; left; exact S| |]; apply in_app_iff in S as [S|[S|[]]].
-        - left. right. left. exact S.
-        - inversion S. auto.
-        - left. right. right. exact S.
-        - inversion S. auto. }
-      destruct Sold as [S0|[[-> ->]|[-> ->]]].
-      * assert (SW : same_wire_c cs a b) by (apply H2; eauto).
-        apply (sw_iff _ _ _ Hnd) in SW as [c [k [Ha Hb]]].
-        destruct (str_eqb c an) eqn:E1.
-        { apply str_eqb_spec in E1. subst c. destruct (Nat.eq_dec k ai) as [->|Hk].
-          - apply Hmerged; apply in_app_iff; left; assumption.
-          - exists an, (if Nat.ltb k ai then k else k - 1). rewrite W4.
-            rewrite (proj2 (str_eqb_false an bn)), str_eqb_refl by assumption.
-            assert (Es : shift ai (if Nat.ltb k ai then k else k - 1) = k).
-            { unfold shift. destruct (Nat.ltb k ai) eqn:E; [rewrite E; reflexivity|]. apply Nat.ltb_ge in E.
-              assert (E2 : Nat.ltb (k - 1) ai = false) by (apply Nat.ltb_ge; lia). rewrite E2. lia. }
-            rewrite Es. auto. }
-        destruct (str_eqb c bn) eqn:E2.
-        { apply str_eqb_spec in E2. subst c. destruct (Nat.eq_dec k bi) as [->|Hk].
-          - apply Hmerged; apply in_app_iff; right; assumption.
-          - exists bn, (if Nat.ltb k bi then k else k - 1). rewrite W4, str_eqb_refl.
-            assert (Es : shift bi (if Nat.ltb k bi then k else k - 1) = k).
-            { unfold shift. destruct (Nat.ltb k bi) eqn:E; [rewrite E; reflexivity|]. apply Nat.ltb_ge in E.
-              assert (E3 : Nat.ltb (k - 1) bi = false) by (apply Nat.ltb_ge; lia). rewrite E3. lia. }
-            rewrite Es. auto. }
-        exists c, k. rewrite W4, E1, E2.
-        assert (E3 : str_eqb c nmg = false).
-        { apply str_eqb_false. intro E. subst c. destruct (find_cable_wire_at _ _ _ _ Ha) as [x0 Hx0].
-          destruct (Hkeep _ _ Hx0) as [y0 Hy0]. congruence. }
-        rewrite E3. auto.
-      * destruct (Hnew a b A B). apply Hmerged; assumption.
-      * destruct (Hnew b a B A). apply Hmerged; assumption.
+  induction 1; [apply sb_refl|apply sb_conn; apply in_app_iff; auto|apply sb_sym; assumption|eapply sb_trans; eauto].
+Qed.
+
+(* one more .conn between two net bits: they are one net from now on, and nothing else changes *)
+Lemma same_bit_snoc_fwd conns a b (g : netbit -> netbit) :
+  (forall y z, same_bit conns y z -> g y = g z) -> g a = g b ->
+  forall y z, same_bit (conns ++ [(a, b)]) y z -> g y = g z.
+Proof.
+  intros Hold Hab y z S. induction S as [u|u v Hin|u v S IH|u v w S1 IH1 S2 IH2].
+  - reflexivity.
+  - apply in_app_iff in Hin as [Hin|[Hin|[]]]; [apply Hold; apply sb_conn; exact Hin|]. inversion Hin; subst. exact Hab.
+  - symmetry. exact IH.
+  - congruence.
+Qed.
+
+Lemma NI_do_conn al an ai bn bi m m' att conns :
+  do_conn al an ai bn bi m = Ok m' ->
+  NI (m_cables m) att conns al ->
+  NI (m_cables m') att (conns ++ [((an, ai), (bn, bi))]) (note_merged al an ai bn bi).
+Proof.
+  intros H [N1 N2 N3].
+  set (x := merged_into al (an, ai)) in *. set (y := merged_into al (bn, bi)) in *.
+  set (cs := m_cables m) in *. set (cs2 := ensure_wire bn bi (ensure_wire an ai cs)).
+  assert (W2 : forall c0 k0, wire_at c0 k0 cs2 = wire_at c0 k0 cs).
+  { intros c0 k0. unfold cs2. rewrite !wire_at_ensure. reflexivity. }
+  assert (H3 : forall kv, In kv al -> has_wire (fst (snd kv)) (snd (snd kv)) cs2).
+  { intros kv Hin. unfold cs2. apply has_wire_ensure_keeps, has_wire_ensure_keeps. exact (N3 kv Hin). }
+  unfold note_merged. fold x y. destruct (nb_eqb x y) eqn:Exy.
+  - (* the two operands already stand for the same wire *)
+    apply nb_eqb_true in Exy.
+    assert (Ecs : m_cables m' = cs2).
+    { unfold do_conn in H. fold x y in H. rewrite (proj2 (nb_eqb_true x y) Exy) in H. inversion H. reflexivity. }
+    rewrite Ecs. constructor.
+    + intros c k pr. rewrite W2. apply N1.
+    + intros u v. split.
+      * intro E. apply same_bit_mono. apply N2. exact E.
+      * apply (same_bit_snoc_fwd conns (an, ai) (bn, bi) (merged_into al)); [intros u' v' S; apply N2; exact S|exact Exy].
+    + exact H3.
+  - apply nb_eqb_false in Exy.
+    assert (Hx : has_wire (fst x) (snd x) cs2).
+    { destruct (merged_into_cases al (an, ai)) as [E|[k0 Hin]]; fold x in E || fold x in Hin.
+      - rewrite E. cbn [fst snd]. unfold cs2. apply has_wire_ensure_keeps, has_wire_ensure.
+      - exact (H3 _ Hin). }
+    pose proof (do_conn_wires _ _ _ _ _ _ _ H Exy Hx) as W4. fold x y in W4. fold cs in W4.
+    assert (G : forall u, merged_into (al ++ [(y, x)]) u = if nb_eqb y (merged_into al u) then x else merged_into al u)
+      by (intro u; apply merged_into_snoc).
+    constructor.
+    + intros c k pr. rewrite W4. destruct (nb_eqb (c, k) y) eqn:E1.
+      * apply nb_eqb_true in E1. split; [intros []|]. intros [u [A B]]. rewrite G in B.
+        destruct (nb_eqb y (merged_into al u)) eqn:E2; [congruence|]. apply nb_eqb_false in E2. congruence.
+      * apply nb_eqb_false in E1. destruct (nb_eqb (c, k) x) eqn:E2.
+        -- apply nb_eqb_true in E2. rewrite in_app_iff. destruct x as [xc xk] eqn:Ex0, y as [yc yk] eqn:Ey0. cbn [fst snd].
+           rewrite !N1. split.
+           ++ intros [[u [A B]]|[u [A B]]]; exists u; (split; [exact A|]); rewrite G.
+              ** destruct (nb_eqb (yc, yk) (merged_into al u)) eqn:E3; [symmetry; exact E2|congruence].
+              ** rewrite B, (proj2 (nb_eqb_true _ _) eq_refl). symmetry. exact E2.
+           ++ intros [u [A B]]. rewrite G in B. destruct (nb_eqb (yc, yk) (merged_into al u)) eqn:E3.
+              ** apply nb_eqb_true in E3. right. exists u. auto.
+              ** left. exists u. split; [exact A|congruence].
+        -- apply nb_eqb_false in E2. rewrite N1. split; intros [u [A B]]; exists u; (split; [exact A|]).
+           ++ rewrite G. destruct (nb_eqb y (merged_into al u)) eqn:E3; [apply nb_eqb_true in E3; congruence|exact B].
+           ++ rewrite G in B. destruct (nb_eqb y (merged_into al u)) eqn:E3; [congruence|exact B].
+    + intros u v. rewrite !G. split.
+      * intro E. destruct (nb_eqb y (merged_into al u)) eqn:E1, (nb_eqb y (merged_into al v)) eqn:E2.
+        -- apply nb_eqb_true in E1, E2. apply same_bit_mono. apply N2. congruence.
+        -- apply nb_eqb_true in E1. (* u stands for y = what b stands for; v for x = what a stands for *)
+           apply (sb_trans _ _ (bn, bi)); [apply same_bit_mono; apply N2; symmetry; exact E1|].
+           apply (sb_trans _ _ (an, ai)); [apply sb_sym, sb_conn; apply in_app_iff; right; left; reflexivity|].
+           apply same_bit_mono. apply N2. exact E.
+        -- apply nb_eqb_true in E2.
+           apply (sb_trans _ _ (an, ai)); [apply same_bit_mono; apply N2; exact E|].
+           apply (sb_trans _ _ (bn, bi)); [apply sb_conn; apply in_app_iff; right; left; reflexivity|].
+           apply same_bit_mono. apply N2. exact E2.
+        -- apply same_bit_mono. apply N2. exact E.
+      * intro S. change ((fun w => if nb_eqb y (merged_into al w) then x else merged_into al w) u =
+                         (fun w => if nb_eqb y (merged_into al w) then x else merged_into al w) v).
+        apply (same_bit_snoc_fwd conns (an, ai) (bn, bi)); [| |exact S].
+        -- intros u' v' S'. apply N2 in S'. rewrite S'. reflexivity.
+        -- cbn beta. fold x y. rewrite (proj2 (nb_eqb_true y y) eq_refl).
+           rewrite (proj2 (nb_eqb_false y x)) by (intro E; apply Exy; symmetry; exact E). reflexivity.
+    + intros kv Hin.
+      assert (Hm : forall c0 k0, has_wire c0 k0 cs2 -> has_wire c0 k0 (m_cables m')).
+      { intros c0 k0 Hh. unfold do_conn in H. fold x y in H. rewrite (proj2 (nb_eqb_false x y) Exy) in H.
+        inversion H. cbn [set_cables m_cables]. apply has_wire_set_wire, has_wire_set_wire. exact Hh. }
+      apply in_app_iff in Hin as [Hin|[<-|[]]]; [apply Hm, H3; exact Hin|]. cbn [fst snd]. apply Hm. exact Hx.
 Qed.
 
 (* the other fields *)
-Lemma do_conn_fields a i b j m m' :
-  do_conn a i b j m = Ok m' ->
+Lemma do_conn_fields al a i b j m m' :
+  do_conn al a i b j m = Ok m' ->
   m_name m' = m_name m /\ m_ports m' = m_ports m /\ m_insts m' = m_insts m /\
   m_lib m' = m_lib m /\ m_defined m' = m_defined m.
-Proof.
-  unfold do_conn. destruct (find_cable _ _); [discriminate|]. destruct (_ && _); [discriminate|].
-  intro H. inversion H. repeat split.
-Qed.
+Proof. unfold do_conn. destruct (nb_eqb _ _); intro H; inversion H; repeat split. Qed.
 
 Definition st_conn (st : nst) (xy : netbit * netbit) : nst :=
   mkNst (n_idx st) (n_ins st) (n_inn st) (n_outn st) (n_att st) (n_conns st ++ [xy]) (n_bb st) (n_lib st) (n_def st).
 
-Lemma R_do_conn nm an ai bn bi m m' st :
-  do_conn an ai bn bi m = Ok m' ->
-  NoDup (map c_name (m_cables m)) ->
-  n_bb st = false -> an <> bn -> ~ In an (touched (n_conns st)) -> ~ In bn (touched (n_conns st)) ->
-  R nm m st -> R nm m' (st_conn st ((an, ai), (bn, bi))).
+Lemma R_do_conn nm al an ai bn bi m m' st :
+  do_conn al an ai bn bi m = Ok m' ->
+  n_bb st = false ->
+  RX nm nm al m st -> RX nm nm (note_merged al an ai bn bi) m' (st_conn st ((an, ai), (bn, bi))).
 Proof.
-  intros H Hnd Hb Hab Hta Htb [R1 R2 R3 R4 R5 R6 R7 R8 R9].
-  destruct (do_conn_fields _ _ _ _ _ _ H) as [F1 [F2 [F3 [F4 F5]]]].
-  assert (B2' : B2 (m_cables m) (n_att st) (n_conns st)).
-  { destruct (n_conns st) as [|c0 cl] eqn:Ec; [|apply R7; [exact Hb|discriminate]].
-    apply b2_of_b1; [exact Hnd|]. apply R6. exact Hb. }
-  destruct (B_do_conn _ _ _ _ _ _ _ _ H Hnd Hab Hta Htb (R6 Hb) B2') as [N1 N2].
+  intros H Hb [[R1 R2 R3 R4 R5 R6 R7 R8] HN].
+  destruct (do_conn_fields _ _ _ _ _ _ _ H) as [F1 [F2 [F3 [F4 F5]]]].
+  pose proof (NI_do_conn _ _ _ _ _ _ _ _ _ H (HN eq_refl Hb)) as N'.
+  split; [|intros _ _; exact N'].
   constructor; cbn [st_conn n_idx n_ins n_inn n_outn n_att n_conns n_bb n_lib n_def]; rewrite ?F3, ?F4, ?F5; auto.
   - intros Hr p. unfold port_dir. rewrite F2. apply R2. exact Hr.
+  - intros _. eexists. exact N'.
   - intros _ Hn. apply app_eq_nil in Hn as [_ Hn]. discriminate.
   - congruence.
 Qed.
